@@ -264,11 +264,17 @@ class AnyOtherPILException(Exception):
     """stands for every exception PIL may raise that is not an OSError"""
 
 
+PIL_BANDS = {"L": ("L",), "RGB": ("R", "G", "B"), "CMYK": ("C", "M", "Y", "K"), "I;16": ("I",), "F": ("F",)}
+
+
 class SPilImage:
     _pyvc_symbolic = True
 
     def __init__(self, mode):
         self.mode = mode
+
+    def getbands(self):
+        return PIL_BANDS[self.mode]
 
     def truth(self):
         return True
@@ -285,7 +291,9 @@ def m_pil_open(interp, fp, *a, **k):
         if interp.truth(c.bool("pil_open_failure_is_an_OSError")):
             raise RaiseSig(OSError("cannot identify image file"))
         raise RaiseSig(AnyOtherPILException("decompression bomb / broken header / ..."))
-    for m in ("L", "RGB"):
+    # any image format PIL recognises may be handed in: 8-bit grey, RGB, CMYK, and single-band images whose
+    # samples are NOT 8-bit unsigned (16-bit grey, 32-bit float)
+    for m in ("L", "RGB", "I;16", "F"):
         if interp.truth(c.bool(f"pil_mode_is_{m}")):
             return SPilImage(m)
     return SPilImage("CMYK")
@@ -300,8 +308,10 @@ def _asarray_pil(interp, img):
         raise RaiseSig(AnyOtherPILException("broken data stream / ..."))
     h, w = c.int("img_h"), c.int("img_w")
     c.assume(And(h >= 1, w >= 1))
-    shape = (h, w) if img.mode == "L" else (h, w, 3 if img.mode == "RGB" else 4)
-    return SArr.fresh(c, c.fresh_name("pixels"), "uint8", shape, kind="int", inp=False)
+    bands = len(PIL_BANDS[img.mode])
+    shape = (h, w) if bands == 1 else (h, w, bands)
+    dt = {"I;16": "uint16", "F": "float32"}.get(img.mode, "uint8")
+    return SArr.fresh(c, c.fresh_name("pixels"), dt, shape, kind="real" if dt == "float32" else "int", inp=False)
 
 
 from pyvc import models_numpy as _mn  # noqa: E402
